@@ -1328,25 +1328,104 @@ class EnvWalker:
             self._w(b["tail"], env2, cb, cur)
 
 
-def field_summaries(F, struct_suffix):
-    """All construction sites `S { f: e, .. }` of struct S (path ends with struct_suffix) in non-test lib code:
-    [(fn, site, ctx, {field: nf}, base_nf_or_None)]"""
-    out = []
-    W = EnvWalker(F)
-    for b in F.lib.bodies:
-        if b.get("closure") or b.get("hir") is None or "yaserde_tests" in b["path"]:
-            continue
-        fn = b["path"]
+def nf_simplify(n):
+    """field of a struct literal -> the initialiser; element of a literal tuple by index"""
+    if not isinstance(n, tuple):
+        return n
+    n = tuple(nf_simplify(x) if isinstance(x, tuple) else x for x in n)
+    if n and n[0] == "field" and isinstance(n[1], tuple):
+        base = n[1]
+        if base[0] == "call" and isinstance(base[1], str) and base[1].startswith("struct:"):
+            for fi in base[2]:
+                if isinstance(fi, tuple) and fi[0] == "field_init" and fi[1] == n[2]:
+                    return fi[2]
+        if base[0] == "tuple" and str(n[2]).isdigit() and int(n[2]) < len(base[1]):
+            return base[1][int(n[2])]
+    return n
 
+
+def _subst_ctx(ctx, mapping):
+    out = []
+    for c in ctx:
+        if c[0] == "star":
+            out.append(("star", nf_simplify(nf_subst(c[1], mapping))))
+        else:
+            out.append(("alt", nf_simplify(nf_subst(c[1], mapping)), c[2]))
+    return tuple(out)
+
+
+def field_summaries(F, struct_suffix, through_helpers=True):
+    """All construction sites `S { f: e, .. }` of struct S (path ends with struct_suffix) in non-test lib code:
+    [(fn, site, ctx, {field: nf}, base_nf_or_None)].
+    With through_helpers, a construction inside a private helper function is reported for each function that calls the helper
+    (arguments substituted for the helper's parameters, the call's context prefixed), transitively, and no longer for the helper
+    itself: whether a constructor sits in the public conversion function or in a function extracted from it does not matter."""
+    W = EnvWalker(F)
+    own = {}      # fn -> [(site, ctx, fields, base)]
+    calls = {}    # caller -> [(callee, arg_nfs, ctx)]
+    params = {}
+    local = {b["path"]: b for b in F.lib.bodies if not b.get("closure") and b.get("hir") is not None and "yaserde_tests" not in b["path"]}
+    for fn, b in local.items():
         def cb(e, env, ctx, fn=fn):
             if e.get("k") == "Struct" and (e["path"].get("path") or "").endswith(struct_suffix):
                 fields = {f["name"]: W.NF.nf(f["e"], env) for f in e["fields"]}
                 base = e.get("base")
-                out.append((fn, H.sp(e), ctx, fields, W.NF.nf(base, env) if isinstance(base, dict) else base))
+                own.setdefault(fn, []).append((H.sp(e), ctx, fields, W.NF.nf(base, env) if isinstance(base, dict) else base))
+            if through_helpers and e.get("k") in ("Call", "MethodCall"):
+                cp = H.callee_path(e)
+                if cp in local and cp != fn:
+                    args = ([e["recv"]] if e.get("k") == "MethodCall" else []) + list(e["args"])
+                    calls.setdefault(fn, []).append((cp, [W.NF.nf(a, env) for a in args], ctx))
         try:
             W.walk_fn(fn, cb)
+            nb = H.norm_body(b)
+            params[fn] = [[name for _, name in H.pat_bindings(p)] for p in nb["params"]]
         except Unrecognised:
+            own.pop(fn, None)
+            calls.pop(fn, None)
             continue
+    if not through_helpers:
+        return [(fn, site, ctx, fields, base) for fn, xs in own.items() for (site, ctx, fields, base) in xs]
+    callers = {}
+    for caller, cs in calls.items():
+        for cp, _, _ in cs:
+            callers.setdefault(cp, set()).add(caller)
+
+    def is_helper(fn):
+        b = local[fn]
+        return b.get("vis") != "Public" and not fn.startswith("<") and bool(callers.get(fn)) and b.get("kind") in ("Fn", "AssocFn")
+
+    total = {fn: list(xs) for fn, xs in own.items()}
+    # attribute helper constructions to their callers (bounded fixpoint)
+    for _ in range(4):
+        changed = False
+        for caller, cs in calls.items():
+            for cp, args, cctx in cs:
+                if cp not in total or not is_helper(cp):
+                    continue
+                names = params.get(cp, [])
+                if len(names) != len(args):
+                    continue
+                mapping = {}
+                for ns, a in zip(names, args):
+                    if len(ns) == 1:
+                        mapping[ns[0]] = a
+                for (site, ctx, fields, base) in total[cp]:
+                    item = (site, tuple(cctx) + _subst_ctx(ctx, mapping),
+                            {k: nf_simplify(nf_subst(v, mapping)) for k, v in fields.items()},
+                            nf_simplify(nf_subst(base, mapping)) if isinstance(base, tuple) else base)
+                    key = (site, nf_str(("tuple", tuple(c[1] for c in item[1]))))
+                    if key not in {(x[0], nf_str(("tuple", tuple(c[1] for c in x[1])))) for x in total.get(caller, [])}:
+                        total.setdefault(caller, []).append(item)
+                        changed = True
+        if not changed:
+            break
+    out = []
+    for fn, xs in total.items():
+        if is_helper(fn) and fn in own and all(c in total for c in callers.get(fn, ())):
+            continue   # reported through its callers
+        for (site, ctx, fields, base) in xs:
+            out.append((fn, site, ctx, fields, base))
     return out
 
 
